@@ -86,6 +86,48 @@ def run(chk) -> None:
     ok = bool(q) and kwarg(q[0], "status_in") is not None and "running" in ast.unparse(kwarg(q[0], "status_in")) and kwarg(q[0], "is_idle") is not None and ast.unparse(kwarg(q[0], "is_idle")) == "False"
     chk.ob("C13.R2", "server start resumes the handlers that were running and not idle", ok, m=mp, node=q[0] if q else oss, fn=oss, instance="resume:selection", reason=ast.unparse(q[0])[:120] if q else "no HandlerQuery")
 
+    # ---------------------------------------------------------------- R2b the resume path replays the whole log, in order
+    _, cft = repo.func(f"{PR}:TickPersistenceDecorator.context_from_ticks")
+    inner = [n for n in ast.walk(cft) if isinstance(n, (ast.AsyncFunctionDef, ast.FunctionDef)) and n is not cft]
+    peeked = [s_ for s_ in ast.walk(cft) if isinstance(s_, ast.Assign) and isinstance(s_.value, ast.Await) and "__anext__" in ast.unparse(s_.value)]
+    if peeked:
+        first = ast.unparse(peeked[0].targets[0])
+        gen_ok = False
+        for g in inner:
+            ys = [y for y in ast.walk(g) if isinstance(y, ast.Yield)]
+            cg = CFG(g)
+            y_first = [n for n in cg.nodes if n.ast is not None and any(isinstance(x, ast.Yield) and x.value is not None and ast.unparse(x.value) == first for x in exprs_in_node(n))]
+            loops = [l for l in ast.walk(g) if isinstance(l, (ast.AsyncFor, ast.For)) and any(isinstance(y, ast.Yield) and y.value is not None and ast.unparse(y.value) == ast.unparse(l.target) for y in ast.walk(l))]
+            if y_first and loops:
+                ln = [x for l in loops for x in cg.nodes_of(l)]
+                # the peeked tick is yielded before the rest of the stream, on every path
+                gen_ok = all(x not in cg.reach([cg.entry], blocked=y_first) for x in ln)
+        chk.ob("C13.R2", "the tick peeked from the store to test for emptiness is replayed first, followed by the rest of the stream", gen_ok, m=mp, node=peeked[0], fn=cft, instance="replay:first-tick-reinjected",
+               reason="the first persisted tick is consumed by the emptiness test and not replayed (or replayed out of order)")
+    rcalls = [c for c in ast.walk(cft) if isinstance(c, ast.Call) and last(call_name(c)) == "replay_ticks_stream"]
+    chk.floor("C13.R2", "replay_ticks_stream calls on the resume path", len(rcalls), 1)
+    used = any(isinstance(s_, ast.Assign) and ast.unparse(s_.value).endswith(".state") and "replay" in ast.unparse(s_.value) for s_ in ast.walk(cft))
+    chk.ob("C13.R2", "the resumed context is built from the replayed state", used and any("to_serialized" in ast.unparse(c) for c in ast.walk(cft) if isinstance(c, ast.Call)), m=mp, node=cft, fn=cft, instance="replay:state-used", reason="replay result not used for the rebuilt context")
+    # both stores hand ticks back in append order
+    msq = repo.module("llama_agents.server._store.sqlite.sqlite_workflow_store")
+    gt = msq.functions.get("SqliteWorkflowStore.get_ticks")
+    if gt is None:
+        raise AnchorError("C13.R2: SqliteWorkflowStore.get_ticks not found")
+    sqls = [c.value for c in ast.walk(gt) if isinstance(c, ast.Constant) and isinstance(c.value, str) and "SELECT" in c.value.upper() and "ticks" in c.value]
+    ok = bool(sqls) and all("ORDER BY SEQUENCE" in " ".join(q.upper().split()) and "DESC" not in q.upper() for q in sqls)
+    chk.ob("C13.R2", "SQLite returns a run's ticks ordered by sequence (ascending)", ok, m=msq, node=gt, fn=gt, instance="tick-order:sqlite", reason=f"queries: {sqls}")
+    at = msq.functions.get("SqliteWorkflowStore.append_tick")
+    ins = [c.value for c in ast.walk(at) if isinstance(c, ast.Constant) and isinstance(c.value, str) and "INSERT" in c.value.upper()] if at is not None else []
+    ok = bool(ins) and all("MAX(SEQUENCE)" in "".join(q.upper().split()) and "+1" in "".join(q.split()) for q in ins)
+    chk.ob("C13.R2", "SQLite numbers a new tick MAX(sequence)+1 inside the INSERT", ok, m=msq, node=at or msq.tree, fn=at, instance="tick-seq:sqlite", reason=f"insert: {ins}")
+    mmem = repo.module("llama_agents.server._store.memory_workflow_store")
+    mat = mmem.functions.get("MemoryWorkflowStore.append_tick")
+    ok = mat is not None and any(isinstance(c, ast.Call) and isinstance(c.func, ast.Attribute) and c.func.attr == "append" for c in ast.walk(mat)) and not any(isinstance(c, ast.Call) and isinstance(c.func, ast.Attribute) and c.func.attr == "insert" for c in ast.walk(mat))
+    chk.ob("C13.R2", "the memory store appends ticks at the end of the run's list", ok, m=mmem, node=mat or mmem.tree, fn=mat, instance="tick-order:memory", reason="append_tick does not append")
+    _, swt = repo.func("llama_agents.server._store.abstract_workflow_store:stream_workflow_ticks")
+    ok = any(isinstance(l, ast.AsyncFor) and "stream_ticks" in ast.unparse(l.iter) and any(isinstance(y, ast.Yield) and "validate_python" in ast.unparse(y) and ast.unparse(l.target) in ast.unparse(y) for y in ast.walk(l)) for l in ast.walk(swt))
+    chk.ob("C13.R2", "stream_workflow_ticks yields every stored tick, validated, in store order", ok, m=repo.module("llama_agents.server._store.abstract_workflow_store"), node=swt, fn=swt, instance="tick-stream:all", reason="stream_workflow_ticks does not yield each stored tick")
+
     # ---------------------------------------------------------------- R3 finalize instead of re-run
     _, hs = repo.func(f"{PR}:handler_status_from_exit_command")
     env = {n: n for n in ("CommandCompleteRun", "CommandFailWorkflow", "CommandHalt", "IdleReleasedEvent", "WorkflowCancelledByUser", "WorkflowTimeoutError", "StopEvent")}
@@ -148,5 +190,8 @@ TWINS = [
     Twin("resume ignores exit command", PR_REL, "                if finalize is not None:\n                    status, result, error = finalize", "                if False:\n                    status, result, error = finalize", "C13.R3"),
     Twin("resume idle handlers too", PR_REL, "                is_idle=False,\n", "", "C13.R2"),
     Twin("replay forgets failures", CL_REL, "                command, (CommandCompleteRun, CommandFailWorkflow, CommandHalt)\n            ):", "                command, (CommandCompleteRun, CommandHalt)\n            ):", "C13.R1"),
+    Twin("first tick swallowed by the emptiness test", PR_REL, "            async def _with_first() -> AsyncIterator[WorkflowTick]:\n                yield first_tick\n                async for tick in tick_stream:", "            async def _with_first() -> AsyncIterator[WorkflowTick]:\n                async for tick in tick_stream:", "C13.R2"),
+    Twin("ticks read newest first", "packages/llama-agents-server/src/llama_agents/server/_store/sqlite/sqlite_workflow_store.py", "FROM ticks WHERE run_id = ? ORDER BY sequence", "FROM ticks WHERE run_id = ? ORDER BY sequence DESC", "C13.R2"),
+    Twin("ticks unordered", "packages/llama-agents-server/src/llama_agents/server/_store/sqlite/sqlite_workflow_store.py", "FROM ticks WHERE run_id = ? ORDER BY sequence", "FROM ticks WHERE run_id = ?", "C13.R2"),
     Twin("benign: mapping with elif", PR_REL, "    if isinstance(command, CommandFailWorkflow):\n        return (\"failed\", None, str(command.exception))", "    elif isinstance(command, CommandFailWorkflow):\n        return (\"failed\", None, str(command.exception))", None),
 ]
